@@ -1,0 +1,10 @@
+//go:build !verif
+
+package cluster
+
+// No-op counterparts of the verification hooks in verif_hooks.go. With the
+// verif build tag off these are trivially inlined away.
+
+func verifPause(point string, key string) {}
+
+func verifFault(point string, index int) error { return nil }
